@@ -712,8 +712,8 @@ def main(run):
                         "eigh/eigvals/svd/matrix_power are oracles (spectral measures are outside the proof)"]
     run.not_proved += ["von_neumann_entropy, trace_distance, mixed-state fidelity, negativity, concurrence, relative entropies: "
                        "spectral, exercised as tests only", "Haar / Bures / BCSZ distribution claims", "diamond_norm (cvxpy absent)",
-                       "limits alpha->1 and alpha->infinity of the Renyi family (only the Tsallis alpha->1 limit and the alpha=0 "
-                       "refutation are proved)"]
+                       "limits alpha->1 and alpha->infinity of the Renyi family (proved: the alpha=0 branch is the Hartley value, and "
+                       "the Tsallis alpha->1 limit)"]
     ok, pa = vcore.static_assumptions("C18/Props")
     for name in vcore.props_theorems("C18/Props.v"):
         run.oblige(name, ok and name in pa, "static theorem")
@@ -740,8 +740,7 @@ def main(run):
             uniq.append(f)
     run.notes["failing_cases_per_key"] = {k: sum(1 for f in run.findings if f.key == k) for k in seen}
     run.findings = uniq
-    REF = {"renyi_alpha0": "classical_renyi_entropy:alpha=0:zero_probabilities",
-           "tsallis_alpha1_base2": "classical_tsallis_entropy:alpha=1:base=2"}
+    REF = {"tsallis_alpha1_base2": "classical_tsallis_entropy:alpha=1:base=2"}
     for thm, prefix in REF.items():
         if any(f.key.startswith(prefix) for f in run.findings):
             run.refuted.append(thm)
